@@ -113,6 +113,17 @@ def _svc_judge(spec, out, ctx):
                     raise Violation(f"service:{when}:{op}", f"{where}: value {i} = {a!r}, closed form {float(b)!r}")
 
 
+def _svc_judge_all(spec, out, ctx):
+    _svc_judge(spec, out, ctx)
+    rec2, o2 = [], []
+    for m in out.get("mixed", []):
+        for op in ("predict_win", "predict_draw", "predict_rank"):
+            rec2.append({"op": op, "teams": m["teams"]})
+            o2.append(m["results"][op])
+    if rec2:
+        _svc_judge(dict(spec, recurring=rec2), {"first": o2, "last": o2, "fillers": out["fillers"]}, ctx)
+
+
 _SVC_CUSTOM, _SVC_CHECK = None, None
 
 
@@ -121,13 +132,13 @@ def _svc():
     if _SVC_CUSTOM is None:
         from vf import service
 
-        _SVC_CUSTOM, _SVC_CHECK = service.make_clause_functions(_svc_recurring, _svc_judge)
+        _SVC_CUSTOM, _SVC_CHECK = service.make_clause_functions(_svc_recurring, _svc_judge_all)
     return _SVC_CUSTOM, _SVC_CHECK
 
 
 PROPERTY = Property(
     pid="C12",
-    clauses=[Clause(name="long-running-service", kind="custom", custom=lambda *a: _svc()[0](*a), check=lambda *a: _svc()[1](*a), quick=16, thorough=64,
+    clauses=[Clause(name="long-running-service", kind="custom", custom=lambda *a: _svc()[0](*a), check=lambda *a: _svc()[1](*a), quick=48, thorough=128,
                     shards_quick=16, shards_thorough=16,
                     rule="one fresh child interpreter and ONE long-lived model per case: the three predictions on 9 recurring line-ups (newcomers on default "
                          "ratings + generated ones) are the first calls of the process, then 9 000 (quick) / 70 000 (thorough) other calls with ever new line-ups, "
